@@ -39,6 +39,28 @@ def run(res, tier, seed):
     res.rule = RULE
     n_models = 400 if tier == "quick" else 5000
     models = gen_valid(rng, n_models, res, constvar=0.08, int_leaves=0.45)
+    # an unnamed sub-proposition that a fixed leaf reduces to ONE free boolean which is also a direct child of its parent
+    # (or comes up from a second such child), under a counting parent: the leaf must keep being counted once per occurrence
+    for _ in range(60 if tier == "quick" else 700):
+        p_, q_, z_ = rng.sample(list("abcdefg"), 3)
+        fixed = {"k": "var", "id": q_, "b": [rng.choice([0, 1])] * 2}
+        def sub():
+            k = rng.choice(["Any", "All", "AtLeast"])
+            r = {"k": k, "ch": [{"k": "str", "id": p_}, dict(fixed)], "id": None}
+            if k == "AtLeast": r["v"] = 1; r["s"] = None
+            return r
+        ch = [sub(), {"k": "str", "id": p_}] if rng.random() < 0.6 else [sub(), {"k": "Any", "ch": [{"k": "str", "id": p_}, dict(fixed), {"k": "var", "id": "h", "b": [0, 0]}], "id": None}]
+        if rng.random() < 0.6: ch.append({"k": "str", "id": z_})
+        k = rng.choice(["All", "AtLeast", "AtLeast", "AtMost", "Xor"])
+        top = {"k": k, "ch": ch, "id": rng.choice(["R", None])}
+        if k in ("AtLeast", "AtMost"): top["v"] = rng.randint(1, len(ch))
+        if k == "AtLeast": top["s"] = None
+        try:
+            m = build(top)
+            if not is_var(m):
+                models.append((top, m)); res.count("absorbed_leaf_pattern" + ("_rejected_by_validation" if m.errors() else ""))
+        except Exception as e:
+            res.count("absorbed_leaf_error:" + type(e).__name__)
     cases = []
     for ast, m in models:
         for variant in range(2):
